@@ -415,6 +415,13 @@ def _run_check(prop, tier, spec, seed, t0, workdir):
             elif rc not in (0, 1):
                 inconclusive.append("%s exited with %s\n%s" % (s["name"], rc, tail(s["log"], 40)))
             continue
+        if "WATCHDOG-VIOLATION" in open(s["log"], errors="replace").read():
+            # a call into the library that never returned (sequential history): the harness watchdog ended the process
+            full = open(s["log"], errors="replace").read()
+            lg = os.path.join(workdir, "replays", "%s__hang__%s.txt" % (prop, s["name"]))
+            open(lg, "w").write(full[-200000:])
+            violations.append((save_replay(prop, lg, "log"), "\n".join(l for l in full.splitlines() if "WATCHDOG-VIOLATION" in l)[:2000]))
+            continue
         if rc == 1 and "--- FAIL" in out:
             # a real test failure: find its replay file
             fails = glob.glob(os.path.join(s["cwd"], "testdata", "rapid", "**", "*.fail"), recursive=True)
